@@ -50,3 +50,25 @@ func VerifLockedKeys(prom *Prometheus) (out []string) {
 	}
 	return out
 }
+
+// VerifFailoverSetClock replaces the clock of the query cache shared by the servers of a failover group
+// (call it before the first query).
+func VerifFailoverSetClock(fg *FailoverGroup, now func() time.Time) {
+	for _, s := range fg.servers {
+		if s.cache != nil {
+			s.cache.mu.Lock()
+			s.cache.now = now
+			s.cache.mu.Unlock()
+		}
+	}
+}
+
+// VerifFailoverGC runs one garbage collection of the group's query cache (the cleaner does it every two minutes).
+func VerifFailoverGC(fg *FailoverGroup) {
+	for _, s := range fg.servers {
+		if s.cache != nil {
+			s.cache.gc()
+			return // the cache is shared
+		}
+	}
+}
